@@ -346,40 +346,62 @@ class Fn:
 
     # ---- def-use (flow-insensitive dependence between locals) -----------------
     def deps(self):
-        """local -> set(locals it may be computed from); calls: dst depends on all
-        args; a `&mut` argument place depends on the other args as well."""
+        """node -> set(nodes it may be computed from). A node is a local (int) or, for locals
+        built as a tuple aggregate, one of its fields ("<local>.<idx>") — so that the bindings of
+        `match (a, b, c) { (Some(x), None, ..) => .. }` depend on their own component only.
+        Calls: dst depends on all args; a `&mut` argument place depends on the other args."""
         if self._deps is not None:
             return self._deps
         d = collections.defaultdict(set)
-        refs = {}  # local holding &x -> x
+        tuples = set()
+        for b in self.blocks:
+            for s in b["stmts"]:
+                if s["rv"].get("r") == "agg" and s["rv"].get("akind") == "tuple" and len(s["dst"]) == 1:
+                    tuples.add(s["dst"][0])
+
+        def node(place):
+            if place is None:
+                return None
+            if len(place) >= 2 and place[0] in tuples and isinstance(place[1], str) and re.fullmatch(r"\.\d+", place[1]):
+                return "%d%s" % (place[0], place[1])
+            return place[0]
+
+        self._node = node
         for b in self.blocks:
             for s in b["stmts"]:
                 rv = s["rv"]
-                dst = s["dst"][0]
+                dst = node(s["dst"])
+                if isinstance(dst, str):
+                    d[s["dst"][0]].add(dst)
                 if rv.get("r") in ("ref", "rawptr", "discr"):
-                    d[dst].add(rv["p"][0])
-                    if rv.get("r") != "discr":
-                        refs[dst] = rv["p"][0]
-                        if rv.get("mut"):
-                            d[rv["p"][0]].add(dst)  # writes through the ref reach the place
-                for o in rv.get("o", []) if isinstance(rv.get("o"), list) else []:
-                    l = op_local(o)
-                    if l is not None:
-                        d[dst].add(l)
-                # index projections
+                    d[dst].add(node(rv["p"]))
+                    if rv.get("r") != "discr" and rv.get("mut"):
+                        d[node(rv["p"])].add(dst)  # writes through the ref reach the place
+                ops = rv.get("o", []) if isinstance(rv.get("o"), list) else []
+                if rv.get("r") == "agg" and rv.get("akind") == "tuple" and len(s["dst"]) == 1:
+                    for i, o in enumerate(ops):
+                        n = node(op_place(o))
+                        if n is not None:
+                            d["%d.%d" % (s["dst"][0], i)].add(n)
+                            d[s["dst"][0]].add("%d.%d" % (s["dst"][0], i))
+                else:
+                    for o in ops:
+                        n = node(op_place(o))
+                        if n is not None:
+                            d[dst].add(n)
                 for pe in s["dst"][1:]:
                     if isinstance(pe, str) and pe.startswith("[_"):
                         d[dst].add(int(pe[2:-1]))
             t = b["term"]
             if t["t"] == "call":
-                dst = t["dst"][0]
-                al = [op_local(o) for o in t["args"]]
+                dst = node(t["dst"])
+                al = [node(op_place(o)) for o in t["args"]]
                 al = [a for a in al if a is not None]
                 for a in al:
                     d[dst].add(a)
-                # mutable reference arguments may be written from the other args
                 for a in al:
-                    ty = self.locals[a]
+                    base = a if isinstance(a, int) else int(a.split(".")[0])
+                    ty = self.locals[base]
                     if ty.startswith("&mut "):
                         for a2 in al:
                             if a2 != a:
